@@ -234,7 +234,7 @@ def r1(idx, rep):
     # complete_run hands the registrar this run's directory and every result
     fc = idx.method("ResultsManager", "complete_run")
     ctor = [c for c in walk_no_nested(fc.node) if isinstance(c, ast.Call) and call_name(c) == "ResultsRegistrar"]
-    kw = {k.arg: unparse(k.value) for k in ctor[0].keywords} if len(ctor) == 1 else {}
+    kw = K.kw_text(fc, ctor[0]) if len(ctor) == 1 else {}
     rep.check(kw.get("run_dir") == "run_dir" and kw.get("results") == "results" and kw.get("pathsname") == "pathsname", "R1", f"{fc.file}::ResultsManager.complete_run registrar wiring", f"{kw}", K.where(fc, fc.node))
 
 
@@ -246,10 +246,10 @@ def r5(idx, rep):
     want = {"delimiter": "self.result.csvpath.delimiter", "quotechar": "self.result.csvpath.quotechar"}
     fl = idx.method("CsvLineSpooler", "load_if")
     w = [c for c in walk_no_nested(fl.node) if isinstance(c, ast.Call) and call_name(c) == "writer"]
-    kw = {k.arg: unparse(k.value) for k in w[0].keywords} if len(w) == 1 else None
+    kw = K.kw_text(fl, w[0]) if len(w) == 1 else None
     fn = idx.method("CsvLineSpooler", "next")
     r = [c for c in walk_no_nested(fn.node) if isinstance(c, ast.Call) and call_name(c) == "DataFileReader"]
-    kr = {k.arg: unparse(k.value) for k in r[0].keywords if k.arg in ("delimiter", "quotechar")} if len(r) == 1 else None
+    kr = {k: v for k, v in K.kw_text(fn, r[0]).items() if k in ("delimiter", "quotechar")} if len(r) == 1 else None
     rep.check(kw == kr and kw is not None, "R5", f"{fl.file}::CsvLineSpooler writer and reader dialect agree",
               f"data.csv is written with {kw or 'the default dialect'} and read back with {kr}: with a non-default delimiter/quotechar the collected lines do not parse back", K.where(fl, fl.node))
     fw = idx.method("ResultSerializer", "_save")
